@@ -583,6 +583,7 @@ def gen_cases(target):
             complex_sorts=("c",),
             extra_unary=[k for k in ("exp", "log", "log1p", "sin", "cos", "floor", "ceil") if k in kinds_ok],
             extra_binary=[k for k in ("atan2", "remainder", "pow") if k in kinds_ok],
+            extra_pred=[k for k in ("is_finite",) if k in kinds_ok],  # the other is_* / nextafter kinds have no Context constructor
         ),
         st.dictionaries(st.integers(0, 20).map(str), st.sampled_from(["a", "b", "a", "t", "one", "abs_x", "v"]), max_size=4),
         st.booleans(),
